@@ -10,7 +10,8 @@ REG.macro("cfg", ["S", "O", "s", "so", "sn", "e", "imp_"],
           "new(RuleConfiguration, modules_to_check=S, modules_to_check_against=O, should=s, should_only=so, should_not=sn, except_present=e, import_=imp_, rule_object_anything=False)")
 REG.macro("cfg_any", ["S", "s", "so", "sn", "imp_"],
           "new(RuleConfiguration, modules_to_check=S, modules_to_check_against=None, should=s, should_only=so, should_not=sn, except_present=False, import_=imp_, rule_object_anything=True)")
-REG.macro("single", ["a"], "setof(Filter, lambda f: f == a)")
+from .speclib import set_function
+set_function("single", dict(a="Filter"), "f", "Filter", "f == a")
 P = ["C12"]
 QO = ["Q_edge", "Q_else_f", "Q_else_r"]
 
